@@ -134,6 +134,54 @@ theorem derived_values_doc (nf nt : NodeRow ℝ) :
     (derivedValuesNp nf nt).height_difference = nf.HEIGHT - nt.HEIGHT := by
   simp only [derivedValuesNp]; exact ⟨trivial, trivial, trivial⟩
 
+/-! ### gas post-processing (`pf/result_extraction.py:get_branch_results_gas`, generated) -/
+
+/-- fluid temperature at the declared from-end / to-end of a branch row: the inlet node's temperature at the end where the
+    gas enters, the branch outlet temperature `TOUTINIT` at the end where it leaves (`FROM_NODE_T_SWITCHED` marks flow
+    against the declared direction) -/
+noncomputable def endTFrom (b : BranchRow ℝ) (nf : NodeRow ℝ) : ℝ := if b.FROM_NODE_T_SWITCHED ≠ 0 then b.TOUTINIT else nf.TINIT
+noncomputable def endTTo (b : BranchRow ℝ) (nt : NodeRow ℝ) : ℝ := if b.FROM_NODE_T_SWITCHED ≠ 0 then nt.TINIT else b.TOUTINIT
+
+/-- norm factors: `p_N·T·K(p,T)/(T_N·p)` evaluated with the absolute pressure *and the fluid temperature of the same end*,
+    whichever way the gas flows; gas velocities are the norm velocity times that factor.  (False of the code before
+    `fix: gas norm factors with reverse flow`: it paired the from-end pressure with the to-end temperature.) -/
+theorem gas_normfactors_doc (b : BranchRow ℝ) (nf nt : NodeRow ℝ) (Z : ℝ → ℝ → ℝ) (v pf pt : ℝ) :
+    let x := gasResultsNp b nf nt Z v pf pt
+    x.p_abs_from = nf.PAMB + pf ∧ x.p_abs_to = nt.PAMB + pt ∧
+    x.normfactor_from = 1.01325 * endTFrom b nf / 273.15 * Z (nf.PAMB + pf) (endTFrom b nf) / (nf.PAMB + pf) ∧
+    x.normfactor_to = 1.01325 * endTTo b nt / 273.15 * Z (nt.PAMB + pt) (endTTo b nt) / (nt.PAMB + pt) ∧
+    x.v_gas_from = v * x.normfactor_from ∧ x.v_gas_to = v * x.normfactor_to ∧ x.v_gas_mean = v * x.normfactor_mean := by
+  simp only [gasResultsNp, endTFrom, endTTo, Constants.NORMAL_PRESSURE, Constants.NORMAL_TEMPERATURE]
+  kunfold
+  refine ⟨trivial, trivial, ?_, ?_, trivial, trivial, trivial⟩ <;>
+    (by_cases hs : b.FROM_NODE_T_SWITCHED = 0 <;> simp [hs])
+
+/-- describing a branch the other way round (ends exchanged, flow flag toggled, same outlet temperature) exchanges the two
+    norm factors and keeps the mean one's temperature: the post-processing does not depend on the declared direction -/
+theorem gas_normfactors_reverse (b b' : BranchRow ℝ) (nf nt : NodeRow ℝ) (Z : ℝ → ℝ → ℝ) (v pf pt : ℝ)
+    (hT : b'.TOUTINIT = b.TOUTINIT) (hs : b'.FROM_NODE_T_SWITCHED ≠ 0 ↔ b.FROM_NODE_T_SWITCHED = 0) :
+    (gasResultsNp b' nt nf Z v pt pf).normfactor_from = (gasResultsNp b nf nt Z v pf pt).normfactor_to ∧
+    (gasResultsNp b' nt nf Z v pt pf).normfactor_to = (gasResultsNp b nf nt Z v pf pt).normfactor_from := by
+  simp only [gasResultsNp]
+  kunfold
+  by_cases h : b.FROM_NODE_T_SWITCHED = 0
+  · have h' : b'.FROM_NODE_T_SWITCHED ≠ 0 := hs.2 h
+    simp [h, h', hT]
+  · have h' : b'.FROM_NODE_T_SWITCHED = 0 := by
+      by_contra hc; exact h (hs.1 hc)
+    simp [h, h', hT]
+
+/-- mean pressure of the gas post-processing: `2/3·(p₁³−p₂³)/(p₁²−p₂²)`, the from-end pressure when the two ends are
+    numerically equal -/
+theorem gas_mean_pressure_doc (b : BranchRow ℝ) (nf nt : NodeRow ℝ) (Z : ℝ → ℝ → ℝ) (v pf pt : ℝ)
+    (hne : ¬ |nf.PAMB + pf - (nt.PAMB + pt)| ≤ 1e-8 + 1e-5 * |nt.PAMB + pt|) :
+    (gasResultsNp b nf nt Z v pf pt).p_abs_mean =
+      2 / 3 * ((nf.PAMB + pf) ^ 3 - (nt.PAMB + pt) ^ 3) / ((nf.PAMB + pf) ^ 2 - (nt.PAMB + pt) ^ 2) := by
+  simp only [gasResultsNp]
+  kunfold
+  rw [if_neg hne]
+  ring
+
 /-- non-vacuity of the hypotheses of `incomp_matches_doc` / `comp_matches_doc` -/
 example : ∃ (rho A D : ℝ), 0 < rho ∧ 0 < A ∧ D ≠ 0 := ⟨998, 0.00785, 0.1, by norm_num, by norm_num, by norm_num⟩
 
